@@ -397,6 +397,7 @@ func c16More(c *Ctx) {
 	recvBufferOwners(c, "C16.R6")
 	c.Rule("C16.R7", "no send on the muxer's queue after close: every send on Unreliable.sendQueue forwards an item taken from the tube's own queue (the sender goroutine, joined by Close) or lies in a critical section of lifecycleMu in which u.state was loaded and found not closed (Muxer.Stop closes the queue once every Close has returned; a send outside the critical section panics on the closed queue) (E1 + E5)")
 	unreliableSendRule(c, "C16.R7")
+	c16R8(c)
 
 	// sends on the sender's queues
 	fSQ := P.Field("tubes", "sender", "sendQueue")
@@ -1038,4 +1039,79 @@ func unreliableSendRule(c *Ctx, rule string) {
 		}
 	}
 	c.Floor(rule, "sends on Unreliable.sendQueue on paths", nSends, 3)
+}
+
+// c16R8: no tube joins a muxer that has begun to stop. Muxer.Stop publishes the stopping state and takes
+// its snapshot of the tubes to close in one critical section of m.m; the tube constructors run under m.m
+// too. A tube inserted after that snapshot is closed by nobody: Stop closes the queues under it, its
+// goroutines leak, and a later write or close on it sends on a closed queue. So on every path of
+// make...TubeWithID that reaches addTube, m.state was loaded and found equal to the running state.
+func c16R8(c *Ctx) {
+	P := c.P
+	const rule = "C16.R8"
+	c.Rule(rule, "no tube joins a stopping muxer: every path of makeReliableTubeWithID / makeUnreliableTubeWithID that inserts the tube (addTube) has loaded m.state and found it equal to muxerRunning, whoever asked for the tube (Stop's snapshot of the tubes to close is taken when the stopping state is published; a tube added later is never closed and outlives the queues) (E1 decision table)")
+	fState := P.Field("tubes", "Muxer", "state")
+	addT := hopID("tubes", "Muxer", "addTube")
+	running := pkgConst(P, "tubes", "muxerRunning")
+	if fState == nil {
+		c.Undecided(rule, "tubes.Muxer.state", "field not found")
+		return
+	}
+	total := 0
+	for _, fname := range []string{"(*Muxer).makeReliableTubeWithID", "(*Muxer).makeUnreliableTubeWithID"} {
+		fn := P.Func("tubes", fname)
+		if fn == nil {
+			c.Undecided(rule, "tubes."+fname, "function not found")
+			continue
+		}
+		name := FuncName(fn)
+		c.Analysed(name)
+		fs := newFailSet()
+		n := 0
+		ok := walkAll(c, rule, fn, func(p *Path) {
+			var loads []*ssa.Call
+			p.ForEach(func(i int, ins ssa.Instruction) bool {
+				call, isCall := ins.(*ssa.Call)
+				if !isCall {
+					return true
+				}
+				if f := calleeFunc(&call.Call); f != nil && f.Name() == "Load" && !call.Call.IsInvoke() && len(call.Call.Args) == 1 && lastField(call.Call.Args[0]) == fState {
+					loads = append(loads, call)
+				}
+				if calleeID(call) != addT {
+					return true
+				}
+				n++
+				okState := false
+				for key, val := range p.FactsAt(i) {
+					if key.op != token.EQL || key.y == nil {
+						continue
+					}
+					for _, pr := range [][2]ssa.Value{{key.x, key.y}, {key.y, key.x}} {
+						for _, l := range loads {
+							v := strip(pr[0])
+							if cv, ok := v.(*ssa.Convert); ok {
+								v = strip(cv.X)
+							}
+							if v != ssa.Value(l) {
+								continue
+							}
+							if k, isC := constInt(pr[1]); isC && k == running && val {
+								okState = true
+							}
+						}
+					}
+				}
+				if !okState {
+					fs.add("running", "a tube is inserted into the muxer on a path where m.state was not found equal to muxerRunning: a tube created while the muxer is stopping is missing from Stop's snapshot, is never closed, and outlives the queues Stop closes", ins, p)
+				}
+				return true
+			})
+		})
+		total += n
+		if ok {
+			fs.report(c, rule, name, []string{"running"}, P.Pos(fn.Pos()), "inserted only while running")
+		}
+	}
+	c.Floor(rule, "addTube calls on paths of the tube constructors", total, 2)
 }
